@@ -200,7 +200,7 @@ fn projection(h: &Hist) -> Vec<String> {
 }
 
 pub fn case(t: &mut Tape, ctx: &CaseCtx) -> CaseResult {
-    let lives = vec![LifePlan { oneshot: false, checks: 1 + t.choose(4), crash_at: None }];
+    let lives = vec![LifePlan::new(false, 1 + t.choose(4), None)];
     let mut script = gen_script(t, &profile());
     let with_pings = t.flag();
     if with_pings {
